@@ -396,6 +396,13 @@ impl<T: Engine> crate::block::BlockEOF for FftFilterFloat<T> {
     /// retired the block with filtered samples still waiting for output space.
     fn eof(&mut self) -> bool {
         use crate::stream::StreamWait;
+        // Nobody is left to read the output: done, whatever the input still
+        // holds. This block answers `WaitForFunc`, so a runner learns about a
+        // departed reader only through `eof()`; without this the block (and
+        // everything upstream of it) kept a multithreaded graph alive forever.
+        if self.dst.closed() {
+            return true;
+        }
         if !self.src.eof() {
             return false;
         }
